@@ -422,15 +422,19 @@ static bool process_line(AsmState *state, const char *line, AsmResult *result) {
         }
 
         if (strcmp(directive, "string") == 0) {
-            char buf[4096];
+            /* The string is never longer than the rest of the line */
+            size_t buf_size = strlen(p) + 1;
+            char *buf = malloc(buf_size);
             uint32_t len;
-            if (!parse_quoted_string(&p, buf, sizeof(buf), &len)) {
+            if (!buf || !parse_quoted_string(&p, buf, buf_size, &len)) {
+                free(buf);
                 result->error = ASM_ERR_SYNTAX;
                 snprintf(result->message, sizeof(result->message),
                          "Expected quoted string after .string");
                 return false;
             }
             nvm_add_string(state->mod, buf, len);
+            free(buf);
             return true;
         }
 
